@@ -737,9 +737,12 @@ def check_oracle(ctx, vocab, shapes):
 
 def run(ctx):
     import time
-    T0 = time.time()
+
+    t0 = time.time()
+
     def lap(what):
-        ctx.cov.setdefault("phase_wall_s", {})[what] = round(time.time() - T0, 1)
+        ctx.cov.setdefault("phase_wall_s", {})[what] = round(time.time() - t0, 1)
+
     # ---- 1. the bounded models -----------------------------------------------------------------------------------
     tlc.check_model(ctx, "HtmlDoc", ctx.pick("HtmlDoc", "HtmlDoc_6"), timeout=3000,
                     constants="all token strings <= %d over 14 tokens (p,/p,pre,/pre,br,text,span,span-open,span-close,script,/script,"
@@ -767,18 +770,28 @@ def run(ctx):
         raise MachineryFailure("emission incomplete: %d payloads, %d shapes" % (len(texts), len(shapes)))
     check_oracle(ctx, vocab[0], shapes)
     payloads = [to_s(t["text"]) for t in texts]
-    stride = ctx.pick(3, 1)  # quick: every 3rd shape, rotating so that every (src,dst) pair and every kind occurs
+    # quick: one third of the shapes - in canonical order the array kind varies fastest, the selection takes one array kind per
+    # (referrer namespace, target namespace, referrer kind, target kind) and rotates it, so every such combination is generated
+    shapes.sort(key=lambda r: (r["src"], r["dst"], r["skind"], r["dkind"], r["chain"], r["how"]))
     cases, jobs = {}, []
     scratch = str(ctx.scratch)
+    hostile = 0
     for i, sh in enumerate(shapes):
-        if i % stride:
+        if ctx.quick and (i + i // 3) % 3:
             continue
         rid = len(cases)
         public = rid % ctx.pick(16, 8) == 5
-        # every 4th shape run carries plain text only, so that balance and links are also judged on pages no payload can disturb
-        pl = ["plain text %d" % k for k in range(5)] if rid % 4 == 0 else payloads
-        cases[rid] = {"universe": universe_from_shape(sh, pl, 5 * rid), "public": public, "shape": sh}
-        jobs.append((rid, cases[rid]["universe"], public, scratch))
+        # every 4th shape run carries plain text only, so that balance and links are also judged on pages no payload can disturb;
+        # the others take the next 5 payloads of TLC's list (every payload is planted at least once in quick, 7 times in thorough)
+        if rid % 4 == 0:
+            uni = universe_from_shape(sh, ["plain text %d" % k for k in range(5)], 5 * rid)
+        else:
+            uni = universe_from_shape(sh, payloads, 5 * hostile)
+            hostile += 1
+        cases[rid] = {"universe": uni, "public": public, "shape": sh}
+        jobs.append((rid, uni, public, scratch))
+    if 5 * hostile < len(payloads):
+        raise MachineryFailure("not every enumerated payload was planted (%d slots for %d payloads)" % (5 * hostile, len(payloads)))
     n_model = len(cases)
     # ---- 3. code -> spec: larger random universes (deeper trees, more types, payloads over a larger alphabet) ----------
     for _ in range(ctx.pick(160, 2500)):
@@ -836,12 +849,15 @@ def run(ctx):
     lap("selftests")
 
     ctx.cov["rule"] = ("spec->code: every payload TLC enumerates (820 = all sequences of <=3 of 9 special tokens) planted in type / attribute / "
-                       "namespace doc comments of every %s type-graph shape TLC enumerates (namespace of referrer x namespace of target x "
+                       "namespace doc comments of the type-graph shapes TLC enumerates (namespace of referrer x namespace of target x "
                        "plain/fixed array/variable array x struct/union/delimited/service request/service response x struct/union/delimited/"
-                       "deprecated%s), all root namespaces generated into one output directory; code->spec: %d seeded random universes "
-                       "(1-3 roots, nesting <=4, 3-8 types, payloads over %d tokens incl. unicode, character references, comment/CDATA/"
-                       "raw-text openers); one trace per page, one TLC state per token event; distinct = (origin, page kind, universe+page hash)"
-                       % (ctx.pick("3rd", "single"), ctx.pick("", ", chains of three types"), len(cases) - n_model, len(RAND_TOKENS)))
+                       "deprecated%s; %s), all root namespaces generated into one output directory, every 4th run with plain text only; "
+                       "code->spec: %d seeded random universes (1-3 roots, nesting <=4, 3-8 types, payloads over %d tokens incl. unicode, "
+                       "character references, comment/CDATA/raw-text openers); one trace per page, one TLC state per token event; "
+                       "distinct = (origin, page kind, universe+page hash)"
+                       % (ctx.pick("", ", chains of three types"),
+                          ctx.pick("quick: every (namespaces, kinds) combination with one of the three array kinds, rotating", "all shapes"),
+                          len(cases) - n_model, len(RAND_TOKENS)))
     ctx.cov["exhaustive"] = False
     ctx.assumptions += [
         "TLC and the HtmlDoc / HtmlDocGen / HtmlDocTrace specifications",
